@@ -20,9 +20,16 @@ PROP = 'C10'
 def eval_program(arg) -> dict:
     seed, stream, scratch, tier = arg
     common.import_dznpy()
+    def has_user_bound_events(info):
+        # the forced assignments below are only worth something if the ports they address have
+        # events the user binds: out-events on a provides port, in-events on a requires port
+        provides_out = any(info['ports'][p]['n_out'] for p in info['provides'])
+        requires_in = any(info['ports'][p]['n_in'] for p in info['requires'])
+        return requires_in if stream % 2 == 0 else (provides_out and requires_in)
     prog, case, rng = progrun.make_program(
         PROP, seed, stream, scratch, stream % 3 == 1,
-        mc_position=['first', 'middle', 'last'][(stream // 3) % 3], mc_shape=stream // 3)
+        mc_position=['first', 'middle', 'last'][(stream // 3) % 3], mc_shape=stream // 3,
+        accept=has_user_bound_events)
     # cover every semantics x direction combination in every run, whatever the random draw
     if stream % 2 == 0:
         prog.enc['requires'] = {'sts': 'NONE', 'mts': 'ALL'}
